@@ -63,6 +63,7 @@ type SpecFn struct {
 }
 
 type Specs struct {
+	returnsSorted map[string][]string
 	contracts map[string]*Contract
 	ifaces    map[string]*Contract // "pkg.Iface.Method"
 	specFns   map[string]*SpecFn
@@ -127,7 +128,7 @@ func (s *Specs) ifaceContract(it types.Type, method string) *Contract {
 
 // loadSpecs reads the guarded contract files of /repo and the trusted specs of /verif/trusted.
 func loadSpecs(w *World, trustedDir string) *Specs {
-	s := &Specs{contracts: map[string]*Contract{}, ifaces: map[string]*Contract{}, specFns: map[string]*SpecFn{}, pure: map[string]bool{},
+	s := &Specs{returnsSorted: map[string][]string{}, contracts: map[string]*Contract{}, ifaces: map[string]*Contract{}, specFns: map[string]*SpecFn{}, pure: map[string]bool{},
 		mutators: map[string]bool{}, noInline: map[string]bool{}, nonnilField: map[string]bool{}, nonnilElem: map[string]bool{},
 		nonnilMapVal: map[string]bool{}, nonnilResult: map[string]bool{}, nonnilIface: map[string]bool{}, unorderedOK: map[string]string{}, structInv: map[string][]Clause{}, pureMethod: map[string]bool{}, siteTags: map[string][]string{}, w: w, pkgByName: map[string]*types.Package{}, typeInv: map[string][]Clause{}}
 	for _, p := range w.prog.AllPackages() {
@@ -344,6 +345,17 @@ func (s *Specs) parseFile(path string, trusted bool) {
 			f := strings.Fields(rest)
 			if len(f) == 2 {
 				s.siteTags[f[0]] = strings.Split(f[1], ",")
+			}
+		case "returns-sorted":
+			// returns-sorted <func> <tags>: the slice the function returns is the slice its last sort call sorted
+			// (with the comparator contract: results are in source order)
+			f := strings.Fields(rest)
+			if len(f) >= 1 {
+				tags := []string{}
+				if len(f) >= 2 {
+					tags = strings.Split(f[1], ",")
+				}
+				s.returnsSorted[f[0]] = tags
 			}
 		case "maprange-unordered":
 			// maprange-unordered <func> <loop ordinal> <reason>: the loop's result is an unordered collection by the property's wording
